@@ -67,7 +67,9 @@ static void decode_case(const block_t *b, uint64_t mask, int api, int order, int
 	if (order == 2) for (uint32_t i = m; i > 1; i--) { uint32_t j = rng_below(r, i); uint32_t t = g_sub[i - 1]; g_sub[i - 1] = g_sub[j]; g_sub[j] = t; }
 	hist_t h = { api, finish, cb, 0, 0, truncate >= 0 && (uint32_t)truncate < m ? (uint32_t)truncate : m, g_sub, 1 };
 	if (!rep_case("2d-decode k=%u r=%u L=%u mask=0x%llx api=%d order=%d cb=%d finish=%d nsub=%u", k, b->c.r, b->c.L, (unsigned long long)mask, api, order, cb, finish, h.nsub)) return;
+	g_session_preprobe = ((mask * 2654435761ULL) >> 13) % 4 == 0;
 	hres_t res; run_history(b, &h, MON_C16 | MON_C01 | MON_C10 | MON_C08, &res);
+	g_session_preprobe = 0;
 	uint32_t nrecv = (uint32_t)__builtin_popcountll(mask);
 	if (finish && h.nsub == m) {
 		/* any single loss must be recovered */
@@ -110,7 +112,9 @@ int p_c16(void)
 			block_t b;
 			if (!rep_case("2d-encode k=%u r=%u L=%u", k, r, c.L)) { if (rep_is_resume_point()) continue; const char *sv = g_prop; g_prop = ""; int rc = block_build(&b, &c, PAY_RANDOM, &rng, 0, -1); g_prop = sv; if (rc) { block_free(&b); continue; } }
 			else {
+				g_session_preprobe = 1;
 				int rc = block_build(&b, &c, PAY_RANDOM, &rng, sp == 0 ? rng_u64(&rng) : 0, -1);
+				g_session_preprobe = 0;
 				rep_case_done(1, 0, 1);
 				if (rc) { if (rc > 0) rep_viol("2d-encode", "configuration accepted by the probe is rejected now"); block_free(&b); continue; }
 			}
